@@ -30,7 +30,7 @@ def plan(tier, seed):
     n = 400 if tier == "quick" else 15000
     per = 25 if tier == "quick" else 250
     nops = 15 if tier == "quick" else 40
-    return [{"lo": lo, "hi": min(n, lo + per), "nops": nops} for lo in range(0, n, per)] + [{"kind": "suite"}] + [{"kind": "families", "shard": i, "of": 6} for i in range(6)]
+    return [{"lo": lo, "hi": min(n, lo + per), "nops": nops} for lo in range(0, n, per)] + [{"kind": "suite"}] + [{"kind": "families", "shard": i, "of": 6} for i in range(6)] + [{"kind": "voided"}]
 
 
 # ---------------------------------------------------------------- part-name allocation under irregular numbering (directed)
@@ -162,8 +162,85 @@ def run_families(unit, acc):
     monitors.SINK.counters.clear()
 
 
+def run_voided(unit, seed, acc):
+    """'rIds unique per source part' where the XML still mentions an rId the package no longer has a relationship for (a
+    plug-in pointed an image's Target at a part that is not there; python-pptx drops such a relationship when it loads): for
+    each position of the voided relationship among a slide's and for four kinds of further relationship, the ids handed out
+    must differ from every id the slide's XML refers to, resolvable or not."""
+    import io
+    import zipfile
+
+    import pptx
+    from lxml import etree
+    from vlib import env, gen, opcx
+
+    R = "{http://schemas.openxmlformats.org/officeDocument/2006/relationships}"
+    rnd = env.rng("C06", "voided", seed)
+    for which, numbering in [(w_, n_) for w_ in range(3) for n_ in ((2, 3, 4), (2, 5, 9), (5, 2, 9), (9, 7, 5), (3, 4, 5))]:
+        for later in ("picture", "hyperlink", "chart", "movie"):
+            prs = pptx.Presentation()
+            s = prs.slides.add_slide(prs.slide_layouts[6])
+            for _ in range(3):
+                s.shapes.add_picture(io.BytesIO(gen.png_bytes(rnd)), 0, 0)
+            buf = io.BytesIO()
+            prs.save(buf)
+            pk = opcx.Pkg.from_bytes(buf.getvalue())
+            out = dict(pk.members)
+            name = "ppt/slides/_rels/slide1.xml.rels"
+            root = etree.fromstring(out[name], opcx.PLAIN)
+            imgs = sorted((r_ for r_ in root if r_.get("Type", "").endswith("/image")), key=lambda r_: r_.get("Id"))
+            imgs[which].set("Target", "../media/NULL")
+            # the three image relationships numbered as another producer might have numbered them (gaps, not in order)
+            sx = out["ppt/slides/slide1.xml"]
+            for r_, num in zip(imgs, numbering):
+                sx = sx.replace(b'r:embed="%s"' % r_.get("Id").encode(), b'r:embed="tmp%d"' % num)
+                r_.set("Id", "rId%d" % num)
+            out["ppt/slides/slide1.xml"] = sx.replace(b'r:embed="tmp', b'r:embed="rId')
+            out[name] = etree.tostring(root, xml_declaration=True, encoding="UTF-8", standalone=True)
+            buf = io.BytesIO()
+            with zipfile.ZipFile(buf, "w", zipfile.ZIP_DEFLATED) as zf:
+                for n_, b_ in out.items():
+                    zf.writestr(n_, b_)
+            prs = pptx.Presentation(io.BytesIO(buf.getvalue()))
+            s = prs.slides[0]
+            wit = {"voided": which, "numbering": list(numbering), "later": later, "seed": seed}
+            acc.case(desc=("voided", which, numbering, later), nontrivial=True, cls="voided-rId")
+            for k in range(3):
+                mentioned = {v for el in s._element.iter() if isinstance(el.tag, str) for a, v in el.attrib.items() if a.startswith(R)}
+                before = set(s.part.rels.keys())
+                try:
+                    if later == "picture":
+                        s.shapes.add_picture(io.BytesIO(gen.png_bytes(rnd)), 0, 0)
+                    elif later == "hyperlink":
+                        r_ = s.shapes.add_textbox(0, 0, 914400, 914400).text_frame.paragraphs[0].add_run()
+                        r_.text = "x"
+                        r_.hyperlink.address = "http://voided.example/%d" % k
+                    elif later == "chart":
+                        from pptx.chart.data import CategoryChartData
+                        from pptx.enum.chart import XL_CHART_TYPE
+
+                        cd = CategoryChartData()
+                        cd.categories = ["a"]
+                        cd.add_series("s", (1,))
+                        s.shapes.add_chart(XL_CHART_TYPE.PIE, 0, 0, 914400, 914400, cd)
+                    else:
+                        s.shapes.add_movie(io.BytesIO(b"movie %d" % k), 0, 0, 914400, 914400, mime_type="video/mp4")
+                except Exception as e:  # noqa
+                    acc.violation("voided:addition-raises:%s:%s" % (later, type(e).__name__), "adding a %s to a slide with a voided relationship raised %r" % (later, e), wit)
+                    break
+                new = set(s.part.rels.keys()) - before
+                acc.count("relationship_ids_handed_out_beside_a_voided_one", len(new))
+                clash = sorted(new & mentioned)
+                if clash:
+                    acc.violation("rId-reassigned-while-in-use:was-unresolved", "%s added to a slide whose XML mentions %s (relationship %d of 3 voided in the input): the new relationship was given %s" % (later, sorted(mentioned), which, clash), wit)
+                    break
+
+
 def run_unit(unit, tier, seed, acc):
     from vlib import histories
+
+    if unit.get("kind") == "voided":
+        return run_voided(unit, seed, acc)
 
     if unit.get("kind") == "families":
         return run_families(unit, acc)
@@ -183,6 +260,10 @@ def replay(w, acc):
         from vlib import suite
 
         return suite.replay_suite(w, acc, ID)
+    if "voided" in w:
+        run_voided({}, w.get("seed", 0), acc)
+        print([(v["key"], v["what"][:300]) for v in acc.violations])
+        return
     if "family" in w:
         fi, pi = sorted(FAMILIES).index(w["family"]), PATTERNS.index(w["numbering"])
         run_families({"shard": fi * len(PATTERNS) + pi, "of": 10**6}, acc)
